@@ -111,8 +111,13 @@ func getRefinedValue(options *types.FieldOptions, rn *yaml.RNode) (*yaml.RNode, 
 
 func applyReplacement(nodes []*yaml.RNode, value *yaml.RNode, targetSelectors []*types.TargetSelector) ([]*yaml.RNode, error) {
 	for _, selector := range targetSelectors {
-		if selector.Select == nil {
+		if selector == nil || selector.Select == nil {
 			return nil, errors.Errorf("target must specify resources to select")
+		}
+		for _, reject := range selector.Reject {
+			if reject == nil {
+				return nil, errors.Errorf("target reject entries must not be empty")
+			}
 		}
 		if len(selector.FieldPaths) == 0 {
 			selector.FieldPaths = []string{types.DefaultReplacementFieldPath}
